@@ -61,7 +61,6 @@ type replWorld struct {
 	ackedReset    uint64            // highest id acknowledged to a live handler since the last reset
 	sinceReset    map[uint64]bool   // ids acknowledged since the last reset
 	cfgs          []replCfg         // possible attributions of the acknowledged batches to handlers (see replCfg)
-	staleSeen     bool
 	batches       int
 	nStray        int
 	nFailed       int
@@ -160,9 +159,6 @@ func (w *replWorld) spawned(resume uint64, reset bool) {
 	}
 	if resume > w.ackedReset {
 		tag := "[resume-skips-logs]"
-		if w.staleSeen {
-			tag = "[late-store-after-reset]"
-		}
 		w.violate("pipeline resumed from id %d but only ids up to %d were acknowledged since the last reset: logs in between are never exported again %s", resume, w.ackedReset, tag)
 	}
 }
@@ -321,9 +317,11 @@ func (s replStorage) StorePipelineState(_ context.Context, id string, lastLogID 
 		w.violate("persisted last_log_id %d while the exporter has acknowledged nothing beyond %d [persisted-ahead]", v, w.ackedMax)
 	} else if v > w.ackedReset {
 		_ = entryResets
-		w.staleSeen = true
 		w.nLateStores++
 		w.violate("StorePipelineState(%d) issued by the persister goroutine of a stopped handler landed after ResetPipeline cleared last_log_id (acknowledged since the reset: up to %d): the reset is undone in the table [late-store-after-reset]", v, w.ackedReset)
+	} else if !w.started {
+		w.nLateStores++
+		w.violate("StorePipelineState(%d) landed while no handler is registered: the operation that stopped the handler returned before its persister goroutine had stored what it held [store-after-stop]", v)
 	}
 	return nil
 }
@@ -468,12 +466,8 @@ func (d replDriver) Accept(_ context.Context, logs ...drivers.LogWithLedger) ([]
 		if last > w.ackedReset {
 			w.ackedReset = last
 		}
-		if !asStray {
-			break
-		}
-		fallthrough
 	case asStray:
-		w.nStray++ // (possibly) the un-awaited Accept goroutine of a halted handler
+		w.nStray++ // the un-awaited Accept goroutine of a halted handler
 	default:
 		c := w.cfgs[0]
 		exp := uint64(0)
@@ -657,10 +651,10 @@ func (r *replRun) call(f func() error) error {
 	select {
 	case err := <-done:
 		return err
-	case <-time.After(20 * time.Second):
+	case <-time.After(90 * time.Second):
 		r.hung = true
 		r.w.mu.Lock()
-		r.w.violate("manager operation did not return within 20s with a healthy store [hung]")
+		r.w.violate("manager operation did not return within 90s with a healthy store [hung]")
 		r.w.mu.Unlock()
 		return errors.New("hung")
 	}
@@ -826,7 +820,7 @@ func (r *replRun) traceLen() int {
 	return len(r.w.trace)
 }
 
-var replFinaleWait = 15 * time.Second
+var replFinaleWait = 60 * time.Second // generous: the machine may be heavily loaded; the poll returns as soon as done
 
 func runRepl(c replCase) (w *replWorld, verdict string) {
 	w = newReplWorld(uint64(c.ps))
@@ -860,7 +854,7 @@ func runRepl(c replCase) (w *replWorld, verdict string) {
 			if n > 0 {
 				last = w.ids[n-1]
 			}
-			w.violate("exporter healthy and pipeline started for 15s, yet the running handler delivered only up to id %d of %d [not-delivered]", w.reached(), last)
+			w.violate("exporter healthy and pipeline started for a long time (up to 60s), yet the running handler delivered only up to id %d of %d [not-delivered]", w.reached(), last)
 		} else {
 			var missing []uint64
 			for _, id := range w.ids {
@@ -870,9 +864,6 @@ func runRepl(c replCase) (w *replWorld, verdict string) {
 			}
 			if len(missing) > 0 {
 				tag := "[not-reexported]"
-				if w.staleSeen {
-					tag = "[late-store-after-reset]"
-				}
 				w.violate("at quiescence logs %v were never exported since the last reset %s", missing, tag)
 			}
 		}
@@ -927,9 +918,7 @@ func cmdRepl(args []string) int {
 			if !seen[tag] {
 				seen[tag] = true
 				out.Violation("C33", cs, v)
-				if tag != "[late-store-after-reset]" {
-					broken++
-				}
+				broken++
 			}
 		}
 	}
